@@ -119,6 +119,31 @@ def instances(tier, seed):
                                         "graphs": gs, "now": NOW, "seed": seed,
                                         "tag": f"{sname}/{ck}/{bk}/{dl_kind}/"
                                                f"single={with_single}/d{disc}/{pol}+{ok}"})
+    # (c) whole-graph chains whose first task is already running with part of its work
+    # done, a second worker free: the child may start right after the parent's
+    # *remaining* time
+    for sname, (nodes, edges) in shapes.items():
+        strategies = [[[4, {"CPU": 1}]], [[1, {"CPU": 1}]], [[2, {"CPU": 1}]]][:len(nodes)]
+        for ran in (1, 2, 3):
+            prog = {"A": ["running", NOW - ran, "p0w0", 0]}
+            rem = 4 - ran
+            tail = 1 if sname != "chain3" else 4
+            for ck in ("c1c1", "c2"):
+                for dl_kind in ("tight", "tight+1", "loose"):
+                    dl = NOW + rem + 1 + tail + {"tight": 0, "tight+1": 1,
+                                                 "loose": 8}[dl_kind]
+                    gs = [graph("G0", nodes, edges, strategies, dl, prog)]
+                    for pol in ("ILP", "TSG"):
+                        for disc in ((1,) if pol == "ILP" else (1, 2)):
+                            oo = dict(enforce_deadlines=True, release_taskgraphs=True)
+                            if pol != "ILP":
+                                oo["discretization"] = disc
+                                oo["plan_ahead"] = 12
+                            out.append({
+                                "policy": pol, "opts": oo, "cluster": CL[ck],
+                                "graphs": gs, "now": NOW, "seed": seed,
+                                "tag": f"{sname}/{ck}/parent-ran{ran}/{dl_kind}/d{disc}/"
+                                       f"{pol}+rtg"})
     return out
 
 
@@ -328,7 +353,12 @@ def ts_feasible(F, plan, kind, grid):
                     if start < pd[2] + slow + 1:
                         return False
                 elif pt["spec"][0] == "running":
-                    if start < running_end(F, pt) + 1:
+                    # TetriSched orders a child after now + *remaining* time of a
+                    # running parent; only the occupancy of a running task is
+                    # over-charged (the open finding), so the attribution mode must
+                    # not stretch the precedence bound as well
+                    sp = pt["spec"]
+                    if start < sp[1] + pt["strategies"][sp[3]][0] + 1:
                         return False
                 elif pt["spec"][0] not in ("completed",):
                     return False  # a predecessor that is neither decided nor done
